@@ -22,8 +22,14 @@ package cluster
 //                        another member contending), "R" (registry: on one member some goroutines keep
 //                        the handle they fetched once, the others call cluster.Mutex(name) afresh before
 //                        every Lock, all locking / unlocking back to back so that there is a waiter on the
-//                        handle at nearly every Unlock), each followed by probes: at quiescence
-//                        every handle must be lockable again.
+//                        handle at nearly every Unlock), "W" (long holds: one goroutine stays inside its
+//                        critical section for k x the request time-out of its handle, k from below 1 to
+//                        above 10 - the time-out being the member's configured cluster-request-timeout
+//                        (a member started with 1 s, member-f with 2 s, the default 10 s in the thorough
+//                        tier) or a short one set on the handle -, while a goroutine of the same member
+//                        waits in Lock, one of another member waits in Lock with a long time-out and one of
+//                        another member calls Lock again and again with a short one, until the holder has
+//                        left), each followed by probes: at quiescence every handle must be lockable again.
 
 import (
 	"context"
@@ -193,6 +199,8 @@ type c18Env struct {
 	// whose keep-alive can be made to fail; not among `members`
 	faulty      *cluster
 	faultyLease *c18FaultyLease
+	// the member of the scenarios W: a secondary configured with a cluster request time-out of 1 s; not among `members`
+	slow *cluster
 }
 
 // installJitter wraps the KV of the member's etcd client (before its session is created).
@@ -272,9 +280,26 @@ func (e *c18Env) addFaulty() error {
 	return nil
 }
 
+// addSlow starts the member of the scenarios W (cluster-request-timeout: 1s).
+func (e *c18Env) addSlow() error {
+	sub := e.dir + "/w"
+	os.MkdirAll(sub, 0o755)
+	c, err := c18New(c18OptionsT(sub, "member-w", "secondary", e.members[0].opt.Cluster.InitialAdvertisePeerURLs, "1s"))
+	if err != nil {
+		return err
+	}
+	e.slow = c
+	return nil
+}
+
 func (e *c18Env) Close() {
 	done := make(chan struct{})
 	go func() {
+		if e.slow != nil {
+			wg := &sync.WaitGroup{}
+			wg.Add(1)
+			e.slow.Close(wg)
+		}
 		if e.faulty != nil {
 			wg := &sync.WaitGroup{}
 			wg.Add(1)
@@ -320,7 +345,19 @@ type c18Worker struct {
 	seed    int64
 	// holdFn != nil: called inside the critical section before the hold time (returns true when it did something)
 	holdFn func() bool
+	// holds != nil: the i-th granted Lock call is followed by a critical section of holds[i]; the worker calls Lock (at
+	// most `rounds` times) until all of them are done, then sets *done
+	holds     []time.Duration
+	timeoutMs int // the request time-out of the handle (logged with the hold)
+	done      *int32
+	// until != nil: after its `rounds` calls the worker goes on (at most maxRounds calls in all) until *until is set
+	until     *int32
+	maxRounds int
 }
+
+var c18T0 = time.Now()
+
+func c18Ms() int { return int(time.Since(c18T0) / time.Millisecond) }
 
 const (
 	c18Idle = iota
@@ -344,7 +381,20 @@ func c18Scenario(w *vx.Writer, cfg vx.M, handles []*c18Handle, workers []c18Work
 			defer wg.Done()
 			wk := workers[i]
 			rng := vx.Rand(wk.seed)
-			for r := 0; r < wk.rounds; r++ {
+			granted := 0
+			if wk.done != nil {
+				defer atomic.StoreInt32(wk.done, 1)
+			}
+			for r := 0; ; r++ {
+				if wk.holds != nil {
+					if granted >= len(wk.holds) || r >= wk.rounds {
+						break
+					}
+				} else if r >= wk.rounds {
+					if wk.until == nil || atomic.LoadInt32(wk.until) != 0 || r >= wk.maxRounds {
+						break
+					}
+				}
 				if d := rng.Intn(4); d > 0 && !wk.noPause {
 					time.Sleep(time.Duration(rng.Intn(20*d)) * time.Millisecond)
 				}
@@ -354,7 +404,7 @@ func c18Scenario(w *vx.Writer, cfg vx.M, handles []*c18Handle, workers []c18Work
 					return
 				}
 				atomic.StoreInt32(&state[i], c18InLock)
-				w.Emit(vx.M{"ev": "inv", "p": wk.p, "op": "lock", "h": wk.h.id, "m": wk.h.member, "probe": false})
+				w.Emit(vx.M{"ev": "inv", "p": wk.p, "op": "lock", "h": wk.h.id, "m": wk.h.member, "probe": false, "t": c18Ms()})
 				err := hm.Lock()
 				if err == nil {
 					n := atomic.AddInt32(&inside, 1)
@@ -367,7 +417,7 @@ func c18Scenario(w *vx.Writer, cfg vx.M, handles []*c18Handle, workers []c18Work
 					atomic.StoreInt32(&state[i], c18Holding)
 				}
 				lastProgress.Store(time.Now().UnixNano())
-				w.Emit(vx.M{"ev": "ret", "p": wk.p, "op": "lock", "ok": err == nil})
+				w.Emit(vx.M{"ev": "ret", "p": wk.p, "op": "lock", "ok": err == nil, "t": c18Ms()})
 				if err != nil {
 					atomic.StoreInt32(&state[i], c18Idle)
 					continue
@@ -375,12 +425,16 @@ func c18Scenario(w *vx.Writer, cfg vx.M, handles []*c18Handle, workers []c18Work
 				if wk.holdFn != nil && wk.holdFn() {
 					lastProgress.Store(time.Now().UnixNano())
 				}
-				if wk.holdMax > 0 {
+				if wk.holds != nil {
+					w.Emit(vx.M{"ev": "hold", "p": wk.p, "m": wk.h.member, "ms": int(wk.holds[granted] / time.Millisecond), "timeout_ms": wk.timeoutMs, "t": c18Ms()})
+					time.Sleep(wk.holds[granted])
+					granted++
+				} else if wk.holdMax > 0 {
 					time.Sleep(wk.holdMin + time.Duration(rng.Int63n(int64(wk.holdMax))))
 				}
 				atomic.AddInt32(&inside, -1)
 				atomic.StoreInt32(&state[i], c18InUnlock)
-				w.Emit(vx.M{"ev": "inv", "p": wk.p, "op": "unlock"})
+				w.Emit(vx.M{"ev": "inv", "p": wk.p, "op": "unlock", "t": c18Ms()})
 				uerr := hm.Unlock()
 				lastProgress.Store(time.Now().UnixNano())
 				w.Emit(vx.M{"ev": "ret", "p": wk.p, "op": "unlock", "ok": uerr == nil})
@@ -716,6 +770,127 @@ func TestVerifC18Mutex(t *testing.T) {
 		ok, maxIn := c18Scenario(w, vx.M{"ev": "reset", "cfg": "R", "scen": scen, "members": nm, "handles": len(handles),
 			"workers": len(workers), "short": false}, handles, workers, probeTimeout)
 		ce.setJitter(0)
+		w.Emit(vx.M{"ev": "end", "scen": scen, "max_inside": int(maxIn), "completed": ok})
+		if !ok {
+			w.Emit(vx.M{"ev": "summary", "scenarios": scen, "short_timeout_scenarios": shortTimeouts, "lease_regrants": regrants, "aborted": true})
+			return
+		}
+	}
+	// ---- W: long holds. One goroutine stays inside its critical section for k x the request time-out of its handle;
+	// a goroutine of the same member waits in Lock meanwhile, one of another member waits in Lock with a long time-out,
+	// one of another member calls Lock with a short time-out again and again until the holder has left for good.
+	nW := vx.EnvInt("VERIF_NW", 2)
+	if nW > 0 {
+		if err := ce.addSlow(); err != nil {
+			w.Emit(vx.M{"ev": "setup-failed", "what": "member-w: " + err.Error()})
+			return
+		}
+	}
+	ms := func(f float64, unit time.Duration) time.Duration { return time.Duration(f * float64(unit)) }
+	for i := 0; i < nW; i++ {
+		nm := len(ce.members)
+		// the holder's member, the handle's time-out (0 = as configured for the member) and the hold times
+		var hc *cluster
+		hid, hmem := "hw", nm+1
+		var configured, override time.Duration
+		var holds []time.Duration
+		switch i {
+		case 0: // configured 1 s: > 3 x, > 4 x
+			hc, configured = ce.slow, time.Second
+			holds = []time.Duration{ms(4.2+0.4*rng.Float64(), time.Second)}
+		case 1: // 300 ms set on the handle of a regular member: > 10 x
+			hc, hid, hmem, configured, override = ce.members[nm-1], fmt.Sprintf("h%d", nm-1), nm-1, 10*time.Second, 300*time.Millisecond
+			holds = []time.Duration{ms(10.5+rng.Float64(), override)}
+		case 2: // configured 1 s: > 1 x, > 2 x, > 6 x
+			hc, configured = ce.slow, time.Second
+			holds = []time.Duration{ms(1.2+0.6*rng.Float64(), time.Second), ms(2.2+0.6*rng.Float64(), time.Second), ms(6.2+0.6*rng.Float64(), time.Second)}
+		case 3: // member-f, configured 2 s: > 3 x
+			if ce.faulty == nil {
+				continue
+			}
+			hc, hid, hmem, configured = ce.faulty, "hf", nm, 2*time.Second
+			holds = []time.Duration{ms(3.2+0.3*rng.Float64(), 2*time.Second)}
+		case 4: // the default 10 s of the primary: > 3 x
+			hc, hid, hmem, configured = ce.members[0], "h0", 0, 10*time.Second
+			holds = []time.Duration{ms(3.1+0.2*rng.Float64(), 10*time.Second)}
+		case 5: // configured 1 s: > 10 x
+			hc, configured = ce.slow, time.Second
+			holds = []time.Duration{ms(10.2+0.6*rng.Float64(), time.Second)}
+		default: // a short time-out set on the handle of a regular member, k = 0.5 .. 8
+			to := time.Duration(200+rng.Intn(300)) * time.Millisecond
+			hc, hid, hmem, configured, override = ce.members[i%nm], fmt.Sprintf("h%d", i%nm), i%nm, 10*time.Second, to
+			holds = []time.Duration{ms(0.5+8*rng.Float64(), to), ms(3.1+2*rng.Float64(), to)}
+		}
+		scen++
+		name := fmt.Sprintf("/verif/lock-%d", scen)
+		hm, err := hc.Mutex(name)
+		if err != nil {
+			t.Fatalf("cluster.Mutex: %v", err)
+		}
+		eff := configured
+		if override > 0 {
+			hm.(*mutex).timeout = override
+			eff = override
+		}
+		hh := &c18Handle{id: hid, member: hmem, m: hm}
+		handles := []*c18Handle{hh}
+		var done int32
+		// the holder (it goes first: no pause; should its own Lock time out it tries again), a waiter of the same member
+		workers := []c18Worker{
+			{p: "g0", h: hh, rounds: len(holds) + 6, noPause: true, holds: holds, timeoutMs: int(eff / time.Millisecond), done: &done, seed: rng.Int63()},
+			{p: "g1", h: hh, rounds: 2, holdMin: 2 * time.Millisecond, holdMax: 20 * time.Millisecond, seed: rng.Int63()},
+		}
+		// contenders of other members: one that waits long, one that gives up quickly and comes back
+		var others []int
+		for m := 0; m < nm; m++ {
+			if m != hmem {
+				others = append(others, m)
+			}
+		}
+		var total time.Duration
+		for _, h := range holds {
+			total += h
+		}
+		for k := 0; k < 2; k++ {
+			o := others[(i+k)%len(others)]
+			if k == 1 && len(others) == 1 && ce.slow != nil && hc != ce.slow {
+				// one regular member only: the quick contender is member-w, with its configured time-out
+				hs, err := ce.slow.Mutex(name)
+				if err != nil {
+					t.Fatalf("cluster.Mutex: %v", err)
+				}
+				ho := &c18Handle{id: "hw", member: nm + 1, m: hs}
+				handles = append(handles, ho)
+				workers = append(workers, c18Worker{p: fmt.Sprintf("g%d", len(workers)), h: ho, rounds: 2, until: &done, maxRounds: 8 + int(total/time.Second)*2,
+					holdMin: 2 * time.Millisecond, holdMax: 20 * time.Millisecond, seed: rng.Int63()})
+				continue
+			}
+			hidO := fmt.Sprintf("h%d", o)
+			var ho *c18Handle
+			for _, x := range handles {
+				if x.id == hidO {
+					ho = x
+				}
+			}
+			if k == 0 || ho == nil {
+				to := total + 8*time.Second // waits in Lock until the holder leaves
+				if k == 1 {
+					to = time.Duration(250+rng.Intn(150)) * time.Millisecond
+					if i == 4 {
+						to = 0 // as configured (10 s)
+					}
+				}
+				ho = mk(o, name, hidO, to)
+				handles = append(handles, ho)
+			}
+			wk := c18Worker{p: fmt.Sprintf("g%d", len(workers)), h: ho, rounds: 2, holdMin: 2 * time.Millisecond, holdMax: 20 * time.Millisecond, seed: rng.Int63()}
+			if k == 1 {
+				wk.until, wk.maxRounds = &done, 8+int(total/(200*time.Millisecond))
+			}
+			workers = append(workers, wk)
+		}
+		ok, maxIn := c18Scenario(w, vx.M{"ev": "reset", "cfg": "W", "scen": scen, "members": nm + 1, "handles": len(handles),
+			"workers": len(workers), "short": override > 0, "timeout_ms": int(eff / time.Millisecond), "configured": override == 0}, handles, workers, probeTimeout)
 		w.Emit(vx.M{"ev": "end", "scen": scen, "max_inside": int(maxIn), "completed": ok})
 		if !ok {
 			w.Emit(vx.M{"ev": "summary", "scenarios": scen, "short_timeout_scenarios": shortTimeouts, "lease_regrants": regrants, "aborted": true})
